@@ -412,14 +412,21 @@ lib_process(lctx *lc, op_t *op)
 		unsigned char *c = blk + mis;
 
 		if (n) memcpy(c, op->data + off, n);
+		{
+		/* "encrypt: non-zero for encryption": any non-zero value, not only 1 (changes from one call to the next) */
+		static const int truthy[8] = { 1, 2, 1, -1, 4, 0x100, 1, (int)0x80000000u };
+		static unsigned tick;
+		int ef = op->encrypt ? truthy[tick ++ & 7] : 0;
+		if (ef != 0 && ef != 1) vf_stat("run_calls_with_other_nonzero_encrypt_flag", 1);
 		switch (lc->mode) {
 		case M_GCM:
-			if (op->oop) (*oc)->run(oc, op->encrypt, c, n); else br_gcm_run(lc->ctx, op->encrypt, c, n);
+			if (op->oop) (*oc)->run(oc, ef, c, n); else br_gcm_run(lc->ctx, ef, c, n);
 			break;
-		case M_CCM: br_ccm_run(lc->ctx, op->encrypt, c, n); break;
+		case M_CCM: br_ccm_run(lc->ctx, ef, c, n); break;
 		default:
-			if (op->oop) (*oc)->run(oc, op->encrypt, c, n); else br_eax_run(lc->ctx, op->encrypt, c, n);
+			if (op->oop) (*oc)->run(oc, ef, c, n); else br_eax_run(lc->ctx, ef, c, n);
 			break;
+		}
 		}
 		if (n) memcpy(op->data + off, c, n);
 		free(blk);
